@@ -3,8 +3,10 @@ package c07
 import (
 	"bytes"
 	"context"
+	"crypto/tls"
 	"errors"
 	"fmt"
+	"io"
 	"net"
 	"runtime"
 	"strings"
@@ -51,6 +53,9 @@ type obs struct {
 	rawHTTP    []int
 	rawErr     error
 	readAhead  bool // repo HTTP client returned a connection holding read-ahead bytes
+	tlsPlain   []byte              // harness TLS client: every plaintext byte it read during the HTTP handshake
+	tlsState   tls.ConnectionState // harness TLS client: state after the handshake
+	tlsCut     bool                // harness TLS client: the request went out in records small enough to cut fields
 
 	closedEarly  bool // HTTP: the server closed the connection after refused attempts instead of answering on
 	cancelDuring bool // the dial context was already cancelled when DialStream returned
@@ -73,6 +78,23 @@ func newServer(p plan) (netio.StreamServer, error) {
 		cfg := httpproxy.ServerConfig{EnableBasicAuth: p.SrvAuth}
 		for _, u := range p.Users {
 			cfg.Users = append(cfg.Users, httpproxy.ServerUserCredentials{Username: u.U, Password: u.P})
+		}
+		if p.TLS {
+			k := thePKI()
+			cfg.EnableTLS = true
+			if p.TLSFunc {
+				cfg.GetCertificate = func(*tls.ClientHelloInfo) (*tls.Certificate, error) { c := k.serverCert; return &c, nil }
+			} else {
+				cfg.Certificates = []tls.Certificate{k.serverCert}
+			}
+			if p.TLSReq {
+				cfg.RequireAndVerifyClientCert, cfg.ClientCAs = true, k.clientPool
+			}
+			if p.TLSCert != "" { // issue (and cache) the client certificate outside the bubble
+				if _, err := k.clientCert(p.TLSCN, p.TLSCert == "valid"); err != nil {
+					panic(fmt.Sprintf("harness: cannot issue a client certificate for CN %q: %v", p.TLSCN, err))
+				}
+			}
 		}
 		return cfg.NewProxyServer()
 	default:
@@ -175,6 +197,11 @@ func newClients(p plan) (*clients, error) {
 		if p.CliAuth {
 			cfg.Username, cfg.Password, cfg.UseBasicAuth = p.Pres[0].U, p.Pres[0].P, true
 		}
+		if p.TLS {
+			tc := p.clientTLSConfig()
+			cfg.UseTLS, cfg.RootCAs, cfg.ServerName = true, tc.RootCAs, tc.ServerName
+			cfg.Certificates, cfg.GetClientCertificate = tc.Certificates, tc.GetClientCertificate
+		}
 		var err error
 		if cl.http, err = cfg.NewProxyClient(); err != nil {
 			return nil, fmt.Errorf("NewProxyClient: %w", err)
@@ -183,6 +210,68 @@ func newClients(p plan) (*clients, error) {
 		cl.ss = (&ssnone.StreamClientConfig{Name: "c07", InnerClient: cl.q}).NewStreamClient()
 	}
 	return cl, nil
+}
+
+// clientTLSConfig is what a client of the plan's TLS proxy is configured with: the harness client
+// uses it as it is, the repository client gets the same values through httpproxy.ClientConfig.
+func (p plan) clientTLSConfig() *tls.Config {
+	k := thePKI()
+	cfg := &tls.Config{RootCAs: k.serverPool, ServerName: p.TLSName}
+	if p.TLS12 {
+		cfg.MaxVersion = tls.VersionTLS12
+	}
+	if p.TLSCert != "" {
+		cert, err := k.clientCert(p.TLSCN, p.TLSCert == "valid")
+		if err != nil {
+			panic(fmt.Sprintf("harness: cannot issue a client certificate for CN %q: %v", p.TLSCN, err))
+		}
+		if p.TLSFunc {
+			cfg.GetClientCertificate = func(*tls.CertificateRequestInfo) (*tls.Certificate, error) { return &cert, nil }
+		} else {
+			cfg.Certificates = []tls.Certificate{cert}
+		}
+	}
+	return cfg
+}
+
+// tlsTap is the harness HTTP client's view of its TLS connection during the handshake: it keeps every
+// plaintext byte read (the only place where the server's responses can be seen in clear) and cuts
+// the beginning of every written message into records according to plan, so that the server's HTTP
+// parser sees the request in pieces even though the record layer reassembles transport segments.
+type tlsTap struct {
+	c    *tls.Conn
+	plan []int
+	idx  int
+	read []byte
+	cut  bool
+}
+
+func (t *tlsTap) Read(b []byte) (int, error) {
+	n, err := t.c.Read(b)
+	t.read = append(t.read, b[:n]...)
+	return n, err
+}
+
+func (t *tlsTap) Write(b []byte) (int, error) {
+	total, budget := 0, 600 // only the head of a message is cut up: a 9000-byte pad need not be 9000 records
+	for len(b) > 0 {
+		n := len(b)
+		if len(t.plan) > 0 && budget > 0 {
+			if k := t.plan[t.idx%len(t.plan)]; k > 0 && k < n {
+				n = k
+				t.cut = t.cut || k <= 7
+			}
+			t.idx++
+			budget -= n
+		}
+		m, err := t.c.Write(b[:n])
+		total += m
+		if err != nil {
+			return total, err
+		}
+		b = b[n:]
+	}
+	return total, nil
 }
 
 // session is one connection of a case: a transport pair, a client goroutine and a server goroutine.
@@ -327,7 +416,11 @@ func start(p plan, srv netio.StreamServer, shared *clients, gated bool) *session
 			}
 			o.cliOK = o.cliErr == nil
 		case p.Proto == "socks5":
-			o.raw5 = rawSocks5(cEnd, p.Methods, p.Pres[0], p.Cmd, p.Target, p.Pushy, p.EarlyData, init, p.Retries)
+			guess := byte(0)
+			if p.SrvAuth {
+				guess = 2
+			}
+			o.raw5 = rawSocks5(cEnd, p.Methods, p.Pres[0], p.Cmd, p.Target, s5Opts{Pushy: p.Pushy, EarlyMode: p.EarlyData, Early: init, Retries: p.Retries, Pipeline: p.Pipeline, Guess: guess})
 			o.cliOK = o.raw5.Stage == "done" && o.raw5.Rep == 0 && !o.raw5.Pushed
 			if o.cliOK && p.Cmd == 1 {
 				cc = cEnd
@@ -341,17 +434,35 @@ func start(p plan, srv netio.StreamServer, shared *clients, gated bool) *session
 			o.cliOK = o.cliErr == nil
 			if o.cliOK {
 				_, plain := cc.(tcpConn)
-				o.readAhead = !plain
+				_, plainTLS := cc.(*tls.Conn)
+				o.readAhead = !plain && !plainTLS
 			}
 		default:
 			authority := p.Target.authority()
-			if p.BadTarget != "" {
+			v := p.Variant
+			switch {
+			case p.BadTarget != "":
 				authority = p.BadTarget
+			case p.HostForm != "":
+				authority, v.Form, v.Verb = p.Target.hostField(), p.HostForm, p.HostVerb
 			}
-			o.rawHTTP, o.rawErr = rawHTTPConnect(cEnd, authority, p.Pres, p.Variant)
+			var (
+				rw     io.ReadWriter = cEnd
+				stream netio.Conn    = cEnd
+				tap    *tlsTap
+			)
+			if p.TLS {
+				tc := tls.Client(cEnd, p.clientTLSConfig())
+				tap = &tlsTap{c: tc, plan: p.SrvPlan}
+				rw, stream = tap, tc
+			}
+			o.rawHTTP, o.rawErr = rawHTTPConnect(rw, authority, p.Pres, v)
+			if tap != nil {
+				o.tlsPlain, o.tlsCut, o.tlsState = tap.read, tap.cut, tap.c.ConnectionState()
+			}
 			if n := len(o.rawHTTP); o.rawErr == nil && n > 0 && o.rawHTTP[n-1]/100 == 2 {
 				// RFC 9110 §9.3.6: tunnel bytes are sent only after the 2xx
-				cc, o.cliOK = cEnd, true
+				cc, o.cliOK = stream, true
 				first = append([][]byte{init}, c2s...)
 			}
 		}
@@ -443,9 +554,13 @@ func viol(p plan, sig, format string, args ...any) string {
 }
 
 func (p plan) describe() string {
-	return fmt.Sprintf("proto=%s peer=%s srvAuth=%v users=%v cliAuth=%v presented=%v classes=%v methods(n=%d,wantPos=%d,pushy=%v,early=%d,retries=%d) storm=%d cancel=%q cmd=%d tcp=%v udp=%v target=%s badTarget=%q abort=%v code=%d local=%s srvPlan=%v/%v cliPlan=%v/%v glue=%v init=%d c2s=%v s2c=%v seed=%#x bufs=%d/%d writeTo=%v variant=%+v",
-		p.Proto, p.Peer, p.SrvAuth, p.Users, p.CliAuth, p.Pres, p.CredClass, len(p.Methods), p.WantPos, p.Pushy, p.EarlyData, len(p.Retries), p.Storm, p.Cancel, p.Cmd, p.EnableTCP, p.EnableUDP,
-		p.Target, p.BadTarget, p.Abort, p.Code, p.Local, p.SrvPlan, p.SrvCoalesce, p.CliPlan, p.CliCoalesce, p.Glue, p.InitPayload, p.C2S, p.S2C,
+	tlsDesc := "off"
+	if p.TLS {
+		tlsDesc = fmt.Sprintf("(requireClientCert=%v clientCert=%q cn=%q serverName=%q tls12=%v viaCallbacks=%v)", p.TLSReq, p.TLSCert, clip(p.TLSCN, 40), p.TLSName, p.TLS12, p.TLSFunc)
+	}
+	return fmt.Sprintf("proto=%s peer=%s tls=%s srvAuth=%v users=%v cliAuth=%v presented=%v classes=%v methods(n=%d,wantPos=%d,dups=%d,pipeline=%d,pushy=%v,early=%d,retries=%d) storm=%d cancel=%q cmd=%d tcp=%v udp=%v target=%s hostForm=%q/%s badTarget=%q abort=%v code=%d local=%s srvPlan=%v/%v cliPlan=%v/%v glue=%v init=%d c2s=%v s2c=%v seed=%#x bufs=%d/%d writeTo=%v variant=%+v",
+		p.Proto, p.Peer, tlsDesc, p.SrvAuth, p.Users, p.CliAuth, p.Pres, p.CredClass, len(p.Methods), p.WantPos, p.MethodDup, p.Pipeline, p.Pushy, p.EarlyData, len(p.Retries), p.Storm, p.Cancel, p.Cmd, p.EnableTCP, p.EnableUDP,
+		p.Target, p.HostForm, p.HostVerb, p.BadTarget, p.Abort, p.Code, p.Local, p.SrvPlan, p.SrvCoalesce, p.CliPlan, p.CliCoalesce, p.Glue, p.InitPayload, p.C2S, p.S2C,
 		p.Seed, p.CliBuf, p.SrvBuf, p.CliWriteTo, p.Variant)
 }
 
@@ -624,9 +739,41 @@ func check(p plan, o *obs) string {
 		}
 
 	case "http":
-		st, trailing, err := parseHTTPServerBytes(o.srvWire)
+		// Under TLS the transport recording is ciphertext and neither side's tls.Config can be tapped,
+		// so the responses are taken from where they can be seen in clear: the harness client's
+		// plaintext reads; for the repository client only the status it reports is known.
+		wire := o.srvWire
+		if p.TLS {
+			wire = o.tlsPlain
+		}
+		st, trailing, err := parseHTTPServerBytes(wire)
 		if err != nil || trailing != 0 {
-			return viol(p, "handshake-bytes", "server handshake bytes do not decode as HTTP response heads: %v trailing=%d wire=%q", err, trailing, clip(string(o.srvWire), 120))
+			return viol(p, "handshake-bytes", "server handshake bytes do not decode as HTTP response heads: %v trailing=%d wire=%q", err, trailing, clip(string(wire), 120))
+		}
+		if p.TLS && p.Peer == "repo" {
+			var ce httpproxy.ConnectNonSuccessfulResponseError
+			switch {
+			case o.cliErr == nil && o.cliGotConn:
+				st = []int{200}
+			case errors.As(o.cliErr, &ce):
+				st = []int{ce.StatusCode}
+			}
+		}
+		if p.tlsRefuses() {
+			// RequireAndVerifyClientCert: a client without a certificate that chains to ClientCAs must not
+			// get anything granted, whatever it says at the HTTP level (valid Basic credentials included).
+			if o.srvHonoured || o.srvErr == nil {
+				return viol(p, "tls-client-auth", "client certificate %q (server requires one under its ClientCAs): request honoured, addr %v user %q err %v", p.TLSCert, o.srvAddr, o.srvUser, o.srvErr)
+			}
+			for _, code := range st {
+				if code/100 == 2 {
+					return viol(p, "tls-client-auth", "client certificate %q: the client was answered %v", p.TLSCert, st)
+				}
+			}
+			if o.cliOK || (p.Peer == "repo" && o.cliErr == nil) {
+				return viol(p, "client-error", "client certificate %q was not accepted but the client believes the request was granted (cliErr=%v rawErr=%v)", p.TLSCert, o.cliErr, o.rawErr)
+			}
+			return ""
 		}
 		var want []int // -400: 400 or nothing
 		granted := false
@@ -640,6 +787,11 @@ func check(p plan, o *obs) string {
 				user = c.U
 			}
 			break
+		}
+		if granted && !p.SrvAuth && p.TLS && p.TLSReq {
+			// documented in TLSProxyServer.HandleStream: without Basic authentication a verified client
+			// certificate names the user (the leaf's common name)
+			user = p.TLSCN
 		}
 		final := 0
 		switch {
@@ -792,7 +944,16 @@ var recHS = ev.New("C07", "handshake",
 		"cmd:udp", "cmd:unsupported", "cmd:disabled", "method:absent", "pushy-after-refusal", "early:same-write", "early:own-write", "early:granted-stream", "ssnone:payload-with-address",
 		"ctx:before", "ctx:during-then-granted", "ctx:after-return-stream", "outcome:abort", "outcome:proceed",
 		"abort:unknown-code", "frag:midfield", "glue", "http:readahead", "http:retry-after-407", "stream:both-ways",
-		"storm:k>=10", "storm:k>=25", "storm:then-correct-granted", "cred:malformed-token", "socks5:auth-retry-after-refusal")
+		"storm:k>=10", "storm:k>=25", "storm:then-correct-granted", "cred:malformed-token", "socks5:auth-retry-after-refusal",
+		// round 6
+		"tls:repo-client", "tls:harness-client", "tls:1.2", "tls:1.3", "tls:granted", "tls:req-valid-granted", "tls:user-from-cn", "tls:basic-user-over-cn",
+		"tls:cert-missing-refused", "tls:cert-untrusted-refused", "tls:cert-refused-despite-valid-basic", "tls:auth-on-granted", "tls:auth-on-refused",
+		"tls:valid-cert-but-bad-basic-refused", "tls:stream-both-ways", "tls:abort", "tls:plaintext-cut", "auth:on-empty-table",
+		"greeting:dup+stream", "greeting:first-of-many+stream", "greeting:middle+stream", "greeting:last-of-many+stream", "greeting:255+stream",
+		"s5:pipelined-one-write", "s5:pipelined-own-writes", "s5:pipelined-granted-stream", "s5:pipelined-auth-granted-stream", "s5:pipelined-refused",
+		"http:v6-lead-letter", "http:v6-lead-digit", "http:v6-lead-colon", "http:name-lead-digit", "http:name-lead-hexletter",
+		"http:v6-spell:expanded", "http:v6-spell:nozip", "http:v6-spell:upper", "http:v6-spell:v4tail",
+		"http:hostform:origin", "http:hostform:absolute", "http:host-noport:domain", "http:host-noport:v4", "http:host-noport:v6", "http:host-port:v6")
 
 func lenClass(n int) string {
 	switch {
@@ -825,6 +986,70 @@ func classify(p plan, o *obs) (key string, nontrivial bool, labels []string) {
 		add("auth:on")
 	} else {
 		add("auth:off")
+	}
+	if p.SrvAuth && len(p.Users) == 0 {
+		add("auth:on-empty-table")
+	}
+	tlsKey := "plain"
+	if p.TLS {
+		tlsKey = fmt.Sprintf("tls/req=%v/cert=%s/12=%v", p.TLSReq, p.TLSCert, p.TLS12)
+		add("tls")
+		if p.Peer == "repo" {
+			add("tls:repo-client")
+		} else {
+			add("tls:harness-client")
+			switch o.tlsState.Version {
+			case tls.VersionTLS12:
+				add("tls:1.2")
+			case tls.VersionTLS13:
+				add("tls:1.3")
+			}
+		}
+		n407 := 0
+		for _, c := range p.Pres {
+			if p.SrvAuth && !inTable(p.Users, c) {
+				n407++
+			}
+		}
+		switch {
+		case p.tlsRefuses() && p.TLSCert == "":
+			add("tls:cert-missing-refused")
+			if grantableAtHTTP(p) {
+				add("tls:cert-refused-despite-valid-basic")
+			}
+		case p.tlsRefuses():
+			add("tls:cert-untrusted-refused")
+			if grantableAtHTTP(p) {
+				add("tls:cert-refused-despite-valid-basic")
+			}
+		case o.srvHonoured:
+			add("tls:granted")
+			if p.TLSReq {
+				add("tls:req-valid-granted")
+				if !p.SrvAuth {
+					add("tls:user-from-cn")
+				} else if o.srvUser != p.TLSCN {
+					add("tls:basic-user-over-cn")
+				}
+			}
+			if p.SrvAuth {
+				add("tls:auth-on-granted")
+			}
+			if !p.Abort && len(o.srvRecv) > 0 && len(o.cliRecv) > 0 {
+				add("tls:stream-both-ways")
+			}
+			if p.Abort {
+				add("tls:abort")
+			}
+		case p.SrvAuth && n407 > 0:
+			add("tls:auth-on-refused")
+			if p.TLSReq && p.TLSCert == "valid" {
+				add("tls:valid-cert-but-bad-basic-refused")
+			}
+		}
+		if o.tlsCut {
+			add("tls:plaintext-cut")
+		}
 	}
 	credKey := ""
 	if p.Storm > 0 {
@@ -960,6 +1185,25 @@ func classify(p plan, o *obs) (key string, nontrivial bool, labels []string) {
 				if len(p.Methods) == 255 && p.WantPos == 254 {
 					add("method:last-of-255")
 				}
+				if n := len(p.Methods); n >= 3 && o.srvHonoured && !p.Abort {
+					// the greeting shape was followed by a complete request and a byte-exact stream
+					switch {
+					case p.MethodDup > 0:
+						add("greeting:dup+stream")
+					case p.WantPos == 0:
+						add("greeting:first-of-many+stream")
+					case p.WantPos == n-1:
+						add("greeting:last-of-many+stream")
+					default:
+						add("greeting:middle+stream")
+					}
+					if n == 255 {
+						add("greeting:255+stream")
+					}
+				}
+				if p.MethodDup > 0 {
+					cmdKey += "|m-dup"
+				}
 				switch {
 				case p.WantPos == 0:
 					cmdKey += "|m-first"
@@ -1006,6 +1250,68 @@ func classify(p plan, o *obs) (key string, nontrivial bool, labels []string) {
 	if p.Proto == "ssnone" && p.InitPayload > 0 {
 		add("ssnone:payload-with-address")
 	}
+	if o.raw5.Pipelined > 0 {
+		outKey += fmt.Sprintf("|pipe%d", p.Pipeline)
+		if p.Pipeline == 1 {
+			add("s5:pipelined-one-write")
+		} else {
+			add("s5:pipelined-own-writes")
+		}
+		switch {
+		case o.srvHonoured && !p.Abort && len(o.srvRecv)+len(o.srvPayload) > 0:
+			add("s5:pipelined-granted-stream")
+			if p.SrvAuth {
+				add("s5:pipelined-auth-granted-stream")
+			}
+		case o.raw5.Pushed:
+			add("s5:pipelined-refused")
+		}
+	}
+	if p.Proto == "http" && o.srvHonoured {
+		// round 6: what kind of host text the server had to turn into an address
+		host := p.Target.host()
+		if p.Peer == "repo" {
+			host = p.Target.connAddr().Host()
+			if p.Target.Kind != "domain" && p.Target.Kind != "v4" {
+				host = "[" + host + "]"
+			}
+		}
+		lead := host[0]
+		if lead == '[' {
+			lead = host[1]
+		}
+		switch p.Target.Kind {
+		case "domain":
+			switch {
+			case lead >= '0' && lead <= '9':
+				add("http:name-lead-digit")
+			case strings.IndexByte("abcdefABCDEF", lead) >= 0:
+				add("http:name-lead-hexletter")
+			}
+		case "v6", "mapped":
+			switch {
+			case lead == ':':
+				add("http:v6-lead-colon")
+			case lead >= '0' && lead <= '9':
+				add("http:v6-lead-digit")
+			default:
+				add("http:v6-lead-letter")
+			}
+			if p.Peer == "raw" && p.Target.Spell != "" {
+				add("http:v6-spell:" + p.Target.Spell)
+			}
+		}
+		if p.HostForm != "" {
+			add("http:hostform:" + p.HostForm)
+			outKey += "|host-" + p.HostForm
+			if p.Target.NoPort {
+				add("http:host-noport:" + p.Target.Kind)
+				outKey += "-noport"
+			} else {
+				add("http:host-port:" + p.Target.Kind)
+			}
+		}
+	}
 	if p.Cancel != "" {
 		outKey += "|ctx-" + p.Cancel
 		switch {
@@ -1037,6 +1343,17 @@ func classify(p plan, o *obs) (key string, nontrivial bool, labels []string) {
 		mid = true
 		fragKey += "c-cut"
 	}
+	if p.TLS {
+		// under TLS the transport plans cut records, not HTTP fields; fields are cut only where the
+		// harness client wrote its request in small records
+		mid = o.tlsCut
+		if fragKey != "" {
+			fragKey = "rec-" + fragKey
+		}
+		if o.tlsCut {
+			fragKey += "+plaincut"
+		}
+	}
 	if mid {
 		add("frag:midfield")
 	}
@@ -1052,8 +1369,21 @@ func classify(p plan, o *obs) (key string, nontrivial bool, labels []string) {
 		fragKey += "+ra"
 	}
 	nontrivial = mid || p.SrvAuth || (p.Target.Kind == "domain" && len(p.Target.Domain) >= 64)
-	key = strings.Join([]string{p.Proto, p.Peer, fmt.Sprint(p.SrvAuth), credKey, addrKey, cmdKey, outKey, fragKey}, "|")
+	key = strings.Join([]string{p.Proto, p.Peer, fmt.Sprint(p.SrvAuth), tlsKey, credKey, addrKey, cmdKey, outKey, fragKey}, "|")
 	return
+}
+
+// grantableAtHTTP: some presented credential would be accepted by the HTTP layer (or none is needed).
+func grantableAtHTTP(p plan) bool {
+	if !p.SrvAuth {
+		return true
+	}
+	for _, c := range p.Pres {
+		if inTable(p.Users, c) {
+			return true
+		}
+	}
+	return false
 }
 
 func TestHandshake(t *testing.T) {
